@@ -142,6 +142,25 @@ def run(ck):
         ck.ob('C29.keys', 'C29.keys/non-literal/%s#%d' % (f.name.split('::')[-1], i), False, f.loc(i),
               'a response field is stored under a computed key (%s): keys must be literals' % f.text(f.kids(i)[2])[:60])
 
+    # ---- LIST: every chunk of the live snapshot is listed ----------------------------------------------------
+    hl = PS.fn(D + 'ControlServer::Impl::handle_list')
+    ck.touch(hl)
+    snap = [nd for nd in hl.nodes if nd['k'] == 'VarDecl' and nd.get('n') == 'snapshot']
+    snap_d = snap[0]['d'] if snap else None
+    from sa.flow import value_sources as _vs
+    from props.common import assignments as _asg
+    src_ok = snap_d is not None and any(hl.nodes[j].get('callee') == 'ephemeralnet::Node::stored_chunks'
+                                        for l_, r_, s_ in _asg(hl) if declref(hl, l_, snap_d) is not None for j in hl.walk(r_))
+    lps = [l for l in loops(hl) if hl.nodes[l]['k'] == 'CXXForRangeStmt' and declref(hl, hl.nodes[l]['range'], snap_d) is not None]
+    body_ok = len(lps) == 1 and not [j for j in hl.walk(hl.nodes[lps[0]]['body']) if hl.nodes[j]['k'] in ('IfStmt', 'ContinueStmt', 'BreakStmt', 'ReturnStmt', 'SwitchStmt')]
+    es = [nd for nd in hl.nodes if nd['k'] == 'VarDecl' and 'ostringstream' in nd.get('t', '')]
+    n_ins = len(stream_insertions(hl, es[0]['d'], hl.nodes[lps[0]]['body'])) if es and lps else 0
+    ck.ob('C29.list', 'C29.list/every-chunk-listed', src_ok and body_ok and n_ins >= 7, hl.loc(),
+          'handle_list writes one ENTRIES record for every element of node_.stored_chunks(), unconditionally')
+    cnt = [(l_, r_) for l_, r_, s_ in _asg(hl) if any(hl.nodes[j].get('s') == 'COUNT' for j in hl.walk(l_) if hl.nodes[j]['k'] == 'StringLiteral')]
+    cnt_ok = len(cnt) == 1 and any(hl.nodes[j].get('callee', '').endswith('::size') and declref(hl, hl.receiver(j), snap_d) is not None for j in hl.walk(cnt[0][1]))
+    ck.ob('C29.list', 'C29.list/count', cnt_ok, hl.loc(), 'COUNT is snapshot.size()')
+
     # ---- reader ---------------------------------------------------------------------------------
     pr = [f for f in PC.fns if f.q.endswith('::parse_response') and f.file.endswith('ControlClient.cpp')]
     if len(pr) != 1:
@@ -184,6 +203,22 @@ def run(ck):
     ok = len(rz) == 1 and len(rx_) == 1 and pr.text(pr.call_args(rz[0])[0]) == pr.text(pr.call_args(rx_[0])[2])
     ck.ob('C29.reader', 'C29.reader/payload-exact', ok, pr.loc(), 'the reader sizes the payload buffer to PAYLOAD-LENGTH and reads exactly that many bytes')
 
+    # the limit applied to a response line is the payload limit, not the short request-line constant: a field value is as
+    # long as the daemon's state makes it (one ENTRIES line for the whole chunk list)
+    rl = [f for f in PC.fns if f.q.endswith('::recv_line') and f.file.endswith('ControlClient.cpp')]
+    if len(rl) != 1:
+        raise AnalysisBroken('ControlClient recv_line not found')
+    rl = rl[0]
+    ck.touch(rl)
+    from sa.flow import value_sources
+    lim_ok = False
+    for i in rl.walk():
+        c = comparison(rl, i)
+        if c and c[0] in ('>', '>=') and any(rl.nodes[j].get('callee', '').endswith('max_control_stream_bytes') for j in value_sources(rl, c[2])):
+            lim_ok = True
+    ck.ob('C29.reader', 'C29.reader/line-limit', lim_ok, rl.loc(),
+          'the client bounds a response line by max_control_stream_bytes() (as it bounds payloads), not by the 16 KiB request-line limit')
+
     # ---- unescape is the inverse of escape ----------------------------------------------------------
     uf = [f for f in PC.fns if f.q.endswith('::unescape_field_value')]
     if len(uf) != 1:
@@ -192,7 +227,10 @@ def run(ck):
     ck.touch(uf)
     sws = [i for i in uf.walk() if uf.nodes[i]['k'] == 'SwitchStmt']
     if len(sws) != 1:
-        raise AnalysisBroken('unescape_field_value is no longer a switch over the escape code')
+        ck.ob('C29.sib', 'C29.sib/unescape-inverts-escape', False, uf.loc(),
+              'the client unescaper is not a single left-to-right pass with one switch over the escape code, so it cannot be shown to invert '
+              'the escaper (sequential replacement passes mis-decode a literal backslash followed by n or r)')
+        return
     utab = switch_table(uf, sws[0])
     un = {}
     for k, stmts in utab.items():
